@@ -1027,3 +1027,93 @@ Proof.
     repeat split; symmetry; apply filter_true; intros; reflexivity.
   - repeat split.
 Qed.
+
+(* ------------------------------------------------------------------------------------------ *)
+(* 3. block connection: the statement *)
+
+(* the row's tracker completes in this block (the test of TowerMon.ledger_step on the pre-state) *)
+Definition completing_row (t : tower) (txs : list N) (a : app) : bool :=
+  match find_trk (db_trks t) (app_uuid a) with Some k => completing (gk_height t + 1) txs k | None => false end.
+(* the row's key is absent from the table afterwards *)
+Definition gone (apps' : list app) (a : app) : bool :=
+  negb (existsb (fun a' => uuid_eqb (app_uuid a') (app_uuid a)) apps').
+
+Definition forfeited_connect (t : tower) (txs : list N) (t' : tower) (v : N) : N :=
+  ssum (filter (fun a => ofu v a && gone (db_apps t') a && negb (completing_row t txs a)) (db_apps t)).
+Definition refunded_connect (t : tower) (txs : list N) (t' : tower) (v : N) : N :=
+  ssum (filter (fun a => ofu v a && gone (db_apps t') a && completing_row t txs a) (db_apps t)).
+
+(* Hypotheses of connect_bal on the pre-state and the block (each is needed: see the *_refuted
+   theorems below, and each holds for a tower fed a consistent chain):
+   S1  a tracker that completes in this block (confirmed exactly IRREVOCABLY_RESOLVED blocks below, penalty
+       not in the block) is not waiting in `reorged` (its confirming block was not disconnected), and its
+       dispute transaction is not mined again in this block;
+   S2  a dispute first seen in this block has a penalty that is not already in the responder's index
+       (a penalty cannot be confirmed before the transaction it spends);
+   S3  the carrier's memo holds no `ConfirmedIn` (send_status never produces one: true of every
+       reachable state, but the memo is not covered by Inv). *)
+Definition connect_side (t : tower) (txs : list N) : Prop :=
+  (forall k, In k (db_trks t) -> completing (gk_height t + 1) txs k = true ->
+             mem_uuid (trk_uuid k) (reorged t) = false /\ memN (t_loc k) txs = false) /\
+  (forall a p, In a (db_apps t) -> memN (a_loc a) txs = true -> find_trk (db_trks t) (app_uuid a) = None ->
+               decrypt (a_blob a) (a_loc a) = Some p -> ti_get (r_index t) p = None) /\
+  memo_ok (car_memo t).
+
+Lemma completing_iff h txs k :
+  completing h txs k = true <->
+  t_conf k = true /\ u32_sub h (t_height k) = Some IRR /\ memN (t_penalty k) txs = false.
+Proof.
+  unfold completing, u32_sub, IRR, Consts.IRREVOCABLY_RESOLVED. rewrite !andb_true_iff, negb_true_iff, Z.eqb_eq. split.
+  - intros [[Hc Hh] Hp]. repeat split; try assumption.
+    destruct (N.leb (t_height k) h) eqn:El; [apply N.leb_le in El; f_equal; lia|apply N.leb_gt in El; lia].
+  - intros [Hc [Hh Hp]]. repeat split; try assumption.
+    destruct (N.leb (t_height k) h) eqn:El; [|discriminate]. apply N.leb_le in El. inversion Hh. lia.
+Qed.
+
+Lemma NoDup_map_inj {A B} (f : A -> B) l x y : NoDup (map f l) -> In x l -> In y l -> f x = f y -> x = y.
+Proof.
+  induction l as [|z l IH]; intros Hnd Hx Hy He; [destruct Hx|].
+  cbn [map] in Hnd. apply NoDup_cons_iff in Hnd. destruct Hnd as [Hz Hnd].
+  destruct Hx as [Hx|Hx], Hy as [Hy|Hy]; subst.
+  - reflexivity.
+  - exfalso. apply Hz. rewrite He. apply in_map. exact Hy.
+  - exfalso. apply Hz. rewrite <- He. apply in_map. exact Hx.
+  - apply IH; assumption.
+Qed.
+
+Lemma gone_filter (keep : app -> bool) l a :
+  NoDup (map app_uuid l) -> In a l -> gone (filter keep l) a = negb (keep a).
+Proof.
+  intros Hnd Ha. unfold gone. f_equal. destruct (keep a) eqn:Ek.
+  - apply existsb_exists. exists a. split; [apply filter_In; auto|apply uuid_eqb_refl].
+  - destruct (existsb _ _) eqn:Ee; [|reflexivity]. apply existsb_exists in Ee. destruct Ee as [a' [Ha' He]].
+    apply filter_In in Ha'. destruct Ha' as [Ha' Hk']. apply uuid_eqb_eq in He.
+    rewrite (NoDup_map_inj app_uuid l a' a Hnd Ha' Ha He) in Hk'. congruence.
+Qed.
+
+Lemma ssum_split3 (p g c : app -> bool) l :
+  ssum (filter p l) = ssum (filter (fun a => p a && negb (g a)) l)
+                      + ssum (filter (fun a => p a && g a && c a) l)
+                      + ssum (filter (fun a => p a && g a && negb (c a)) l).
+Proof.
+  induction l as [|a l IH]; [reflexivity|]. cbn [filter].
+  destruct (p a), (g a), (c a); cbn [andb negb]; rewrite ?ssum_cons; lia.
+Qed.
+
+Lemma connect_phases le t hash txs sc t' :
+  step le t (OConnect hash txs) sc = (t', OBlockRes) ->
+  exists t1 t2,
+    gk_block_connected (fresh t) (gk_height t + 1) = Ok tt t1 /\
+    w_block_connected sc t1 (cache_block hash txs) (gk_height t + 1) = Ok tt t2 /\
+    r_block_connected le sc t2 (index_block hash txs) (gk_height t + 1) = Ok tt t'.
+Proof.
+  cbn [step]. change (set_rpc_log t []) with (fresh t). change (gk_height (fresh t)) with (gk_height t).
+  unfold Consts.LISTENER_ORDER. cbn [run_listeners].
+  change (listener_connected le sc hash txs (gk_height t + 1) 0 (fresh t)) with (gk_block_connected (fresh t) (gk_height t + 1)).
+  destruct (gk_block_connected (fresh t) (gk_height t + 1)) as [[] t1|] eqn:E1; cbn [bind wrap]; [|intros H; inversion H].
+  change (listener_connected le sc hash txs (gk_height t + 1) 1 t1) with (w_block_connected sc t1 (cache_block hash txs) (gk_height t + 1)).
+  destruct (w_block_connected sc t1 (cache_block hash txs) (gk_height t + 1)) as [[] t2|] eqn:E2; cbn [bind wrap]; [|intros H; inversion H].
+  change (listener_connected le sc hash txs (gk_height t + 1) 2 t2) with (r_block_connected le sc t2 (index_block hash txs) (gk_height t + 1)).
+  destruct (r_block_connected le sc t2 (index_block hash txs) (gk_height t + 1)) as [[] t3|] eqn:E3; cbn [bind wrap]; intros H; inversion H.
+  subst. exists t1, t2. repeat split; assumption.
+Qed.
